@@ -415,6 +415,19 @@ class Ctx:
             json.dump(ev, f, indent=1)
         for l in self.known_lines:
             print(l)
+        concrete = [p for p, suffix in self.violations if not suffix]
+        noinput = [p for p, suffix in self.violations if suffix]
+        if concrete and noinput:
+            # the search found a failing input: report it as the replay and name the broken
+            # obligations inside it instead of printing separate no-failing-input-found lines
+            for p in concrete:
+                try:
+                    r = json.load(open(p))
+                    r["broken_obligations"] = [json.load(open(q)) for q in noinput]
+                    json.dump(r, open(p, "w"), indent=1)
+                except (OSError, ValueError):
+                    pass
+            self.violations = [(p, "") for p in concrete]
         for path, suffix in self.violations:
             print("VIOLATION property=%s replay=%s%s" % (self.prop, path, suffix))
         sys.stdout.flush()
